@@ -1148,6 +1148,306 @@ def gen_sort_loop():
 GENERATORS["SortLoop"] = gen_sort_loop
 
 
+# ---------------------------------------------------------------------------------------------------------
+# gaf.parse_gaf_line / Alignment.__str__ / phase.add_phase_info : the record text layer (C16, C17, C20)
+
+def _regex_head(rx):
+    """`^( items )(.*)$` with items = literal characters or classes of ranges / single characters -> Lean predicates"""
+    if not (rx.startswith("^(") and rx.endswith(")(.*)$")):
+        raise Untranslatable("tag regex shape: %r" % rx)
+    body, i, preds = rx[2:-6], 0, []
+    while i < len(body):
+        c = body[i]
+        if c == "[":
+            j = body.index("]", i)
+            cls, k, alts = body[i + 1:j], 0, []
+            if cls.startswith("^") or "\\" in cls:
+                raise Untranslatable("tag regex class %r" % cls)
+            while k < len(cls):
+                if k + 2 < len(cls) and cls[k + 1] == "-":
+                    alts.append("(c.val ≥ %d && c.val ≤ %d)" % (ord(cls[k]), ord(cls[k + 2])))
+                    k += 3
+                else:
+                    alts.append("c == '%s'" % cls[k])
+                    k += 1
+            preds.append("fun c => " + " || ".join(alts))
+            i = j + 1
+        elif c.isalnum() or c in ":_-":
+            preds.append("fun c => c == '%s'" % c)
+            i += 1
+        else:
+            raise Untranslatable("tag regex item %r" % c)
+    return preds
+
+
+def _lean_str(v):
+    return '"%s".toList' % v.replace("\\", "\\\\").replace('"', '\\"').replace("\t", "\\t").replace("\n", "\\n")
+
+
+def gen_gaf_record():
+    _, src = src_of("gaftools/gaf.py")
+    mod = ast.parse(src)
+    fn = find_func(mod, "parse_gaf_line", cls="GAF")
+    body = [st for st in fn.body if not (isinstance(st, ast.Expr) and isinstance(st.value, ast.Constant))]
+    # ---- how the line becomes fields
+    first = body[0]
+    if not (isinstance(first, ast.If) and ast.unparse(first.test) == "not self.gz_flag" and len(first.body) == 1 and len(first.orelse) == 1):
+        raise Untranslatable("parse_gaf_line does not start with the gz_flag split")
+
+    def split_form(st, recv):
+        u = ast.unparse(st)
+        forms = {"fields = %s.rstrip().split('\\t')" % recv: "true", "fields = %s.split('\\t')" % recv: "false"}
+        if u not in forms:
+            raise Untranslatable("field split: %s" % u)
+        return forms[u]
+    rs_plain = split_form(first.body[0], "line")
+    rs_bgzf = split_form(first.orelse[0], "line.decode('utf-8')")
+    # ---- columns
+    cols, init, tag_for, ret = [], {}, None, None
+    for st in body[1:]:
+        u = ast.unparse(st)
+        if isinstance(st, ast.Assign) and len(st.targets) == 1 and isinstance(st.targets[0], ast.Name):
+            name, v = st.targets[0].id, ast.unparse(st.value)
+            m = re.fullmatch(r"fields\[(\d+)\]\.split\(' '\)\[0\]", v)
+            if m:
+                cols.append((name, int(m.group(1)), "cut")); continue
+            m = re.fullmatch(r"int\(fields\[(\d+)\]\)", v)
+            if m:
+                cols.append((name, int(m.group(1)), "int")); continue
+            m = re.fullmatch(r"fields\[(\d+)\]", v)
+            if m:
+                cols.append((name, int(m.group(1)), "str")); continue
+            if isinstance(st.value, ast.Constant) or v == "{}":
+                init[name] = v; continue
+            raise Untranslatable("parse_gaf_line assignment: %s" % u)
+        if isinstance(st, ast.If):
+            m = re.fullmatch(r"fields\[(\d+)\]\.isdigit\(\)", ast.unparse(st.test))
+            if (m and len(st.body) == 1 and isinstance(st.body[0], ast.Assign) and len(st.orelse) == 1 and isinstance(st.orelse[0], ast.Return)
+                    and st.orelse[0].value is None and ast.unparse(st.body[0].value) == "int(fields[%s])" % m.group(1)):
+                cols.append((st.body[0].targets[0].id, int(m.group(1)), "guard")); continue
+            raise Untranslatable("parse_gaf_line test: %s" % ast.unparse(st.test))
+        if isinstance(st, ast.For):
+            if tag_for is not None:
+                raise Untranslatable("two loops in parse_gaf_line")
+            tag_for = st; continue
+        if isinstance(st, ast.Return):
+            ret = st; continue
+        raise Untranslatable("parse_gaf_line statement: %s" % u[:60])
+    if init != {"is_primary": "True", "cigar": "''", "tags": "{}"}:
+        raise Untranslatable("initial values: %s" % init)
+    if tag_for is None or ret is None or ast.unparse(tag_for.iter) != "fields[12:]" or ast.unparse(tag_for.target) != "k":
+        raise Untranslatable("tag loop / return not found")
+    call = ret.value
+    if not (isinstance(call, ast.Call) and ast.unparse(call.func) == "Alignment" and all(isinstance(a, ast.Name) for a in call.args)
+            and [(k.arg, ast.unparse(k.value)) for k in call.keywords] == [("tags", "tags")]):
+        raise Untranslatable("return value of parse_gaf_line")
+    ctor = [a.id for a in call.args]
+    # the constructor's parameter order must be the attribute it stores
+    init_fn = find_func(mod, "__init__", cls="Alignment")
+    params = [a.arg for a in init_fn.args.args][1:]
+    stores = {ast.unparse(st.targets[0]): ast.unparse(st.value) for st in init_fn.body if isinstance(st, ast.Assign)}
+    for pname in params[:len(ctor)]:
+        if stores.get("self." + pname) != pname:
+            raise Untranslatable("Alignment.__init__ does not store %s" % pname)
+    attr_of = dict(zip(ctor, params))        # local variable of parse_gaf_line -> attribute of the record
+    # ---- the tag loop
+    lb = tag_for.body
+    if not (len(lb) == 2 and isinstance(lb[0], ast.Assign) and ast.unparse(lb[0].targets[0]) == "match" and isinstance(lb[0].value, ast.Call)
+            and ast.unparse(lb[0].value.func) == "re.match" and len(lb[0].value.args) == 2 and isinstance(lb[0].value.args[0], ast.Constant)
+            and ast.unparse(lb[0].value.args[1]) == "k" and isinstance(lb[1], ast.If) and ast.unparse(lb[1].test) == "match" and not lb[1].orelse):
+        raise Untranslatable("tag loop shape")
+    preds = _regex_head(lb[0].value.args[0].value)
+    inner = lb[1].body
+    if ast.unparse(inner[0]) not in ("(pattern, val) = match.groups()", "pattern, val = match.groups()"):
+        raise Untranslatable("tag loop: %s" % ast.unparse(inner[0]))
+
+    def cond(e):
+        if isinstance(e, ast.BoolOp):
+            return "(" + (" && " if isinstance(e.op, ast.And) else " || ").join(cond(x) for x in e.values) + ")"
+        if isinstance(e, ast.UnaryOp) and isinstance(e.op, ast.Not):
+            return "(!%s)" % cond(e.operand)
+        if isinstance(e, ast.Compare) and len(e.ops) == 1 and isinstance(e.left, ast.Name) and e.left.id in ("pattern", "val"):
+            r, t = e.comparators[0], type(e.ops[0])
+            if isinstance(r, ast.Constant) and isinstance(r.value, str) and t in (ast.Eq, ast.NotEq):
+                c = "(%s == %s)" % (e.left.id, _lean_str(r.value))
+                return c if t is ast.Eq else "(!%s)" % c
+            if isinstance(r, ast.Name) and r.id == "tags" and e.left.id == "pattern" and t in (ast.In, ast.NotIn):
+                return "dictHas st.tags pattern" if t is ast.In else "(!dictHas st.tags pattern)"
+            if isinstance(r, (ast.Tuple, ast.List)) and all(isinstance(x, ast.Constant) and isinstance(x.value, str) for x in r.elts) and t in (ast.In, ast.NotIn):
+                c = "(" + " || ".join("%s == %s" % (e.left.id, _lean_str(x.value)) for x in r.elts) + ")"
+                return c if t is ast.In else "(!%s)" % c
+        raise Untranslatable("tag loop test: %s" % ast.unparse(e))
+
+    def ex(stmts, ind):
+        pad = " " * ind
+        if not stmts:
+            return pad + "st"
+        st, rest = stmts[0], stmts[1:]
+        if isinstance(st, ast.Expr) and isinstance(st.value, ast.Constant):
+            return ex(rest, ind)
+        if isinstance(st, ast.Continue):
+            return pad + "st"
+        if isinstance(st, ast.Assign) and len(st.targets) == 1:
+            t, v = ast.unparse(st.targets[0]), st.value
+            if t == "cigar" and isinstance(v, ast.Name) and v.id == "val":
+                upd = "{ st with cigar := val }"
+            elif t == "is_primary" and isinstance(v, ast.Constant) and isinstance(v.value, bool):
+                upd = "{ st with isPrimary := %s }" % ("true" if v.value else "false")
+            elif t == "tags[pattern]" and isinstance(v, ast.Name) and v.id == "val":
+                upd = "{ st with tags := dictSet st.tags pattern val }"
+            else:
+                raise Untranslatable("tag loop assignment: %s" % ast.unparse(st))
+            return "%slet st : TagSt := %s\n%s" % (pad, upd, ex(rest, ind))
+        if isinstance(st, ast.If):
+            return "%sif %s then\n%s\n%selse\n%s" % (pad, cond(st.test), ex(st.body + rest, ind + 2), pad, ex(st.orelse + rest, ind + 2))
+        raise Untranslatable("tag loop statement: %s" % ast.unparse(st)[:60])
+    tag_body = ex(inner[1:], 2)
+    # ---- Alignment.__str__
+    sfn = find_func(mod, "__str__", cls="Alignment")
+    fmt = None
+    cg_rule = None
+    tag_fmt = None
+    for st in sfn.body:
+        if isinstance(st, ast.Assign) and ast.unparse(st.targets[0]) == "line" and isinstance(st.value, ast.BinOp) and isinstance(st.value.op, ast.Mod):
+            if not (isinstance(st.value.left, ast.Constant) and isinstance(st.value.right, ast.Tuple)):
+                raise Untranslatable("__str__ format")
+            fmt = (st.value.left.value, [ast.unparse(a) for a in st.value.right.elts])
+        elif isinstance(st, ast.If):
+            if [ast.unparse(x) for x in st.body] != ["self.tags['cg:Z:'] = self.cigar"] or st.orelse:
+                raise Untranslatable("__str__ cg rule body")
+            m = {"self.cigar": "cigarNonEmpty", "'cg:Z:' in self.tags": "hasCg"}
+
+            def cgc(e):
+                if isinstance(e, ast.BoolOp):
+                    return "(" + (" && " if isinstance(e.op, ast.And) else " || ").join(cgc(x) for x in e.values) + ")"
+                if ast.unparse(e) in m:
+                    return m[ast.unparse(e)]
+                raise Untranslatable("__str__ cg test: %s" % ast.unparse(e))
+            cg_rule = cgc(st.test)
+        elif isinstance(st, ast.For):
+            if ast.unparse(st.iter) not in ("self.tags.keys()", "self.tags") or ast.unparse(st.target) != "k" or len(st.body) != 1:
+                raise Untranslatable("__str__ tag loop")
+            b = st.body[0]
+            if not (isinstance(b, ast.AugAssign) and ast.unparse(b.target) == "line" and isinstance(b.value, ast.BinOp) and isinstance(b.value.left, ast.Constant)
+                    and ast.unparse(b.value.right) == "(k, self.tags[k])"):
+                raise Untranslatable("__str__ tag loop body")
+            tag_fmt = b.value.left.value
+        elif isinstance(st, ast.Return):
+            if ast.unparse(st.value) != "line":
+                raise Untranslatable("__str__ return")
+        else:
+            raise Untranslatable("__str__ statement: %s" % ast.unparse(st)[:60])
+    if fmt is None or cg_rule is None or tag_fmt is None:
+        raise Untranslatable("__str__ parts missing")
+    for a in fmt[1]:
+        if not a.startswith("self."):
+            raise Untranslatable("__str__ prints %s" % a)
+    # ---- phase.add_phase_info: what is written per record
+    _, psrc = src_of("gaftools/cli/phase.py")
+    pfn = find_func(ast.parse(psrc), "add_phase_info")
+    loop = _only([st for st in pfn.body if isinstance(st, ast.For) and "read_file()" in ast.unparse(st.iter)], "record loop of add_phase_info")
+    writes = []       # in order: ("fmt", format, args) | ("if", cond, [writes], [writes]) | ("tags", format)
+    pvars = {}
+
+    def pwrite(call):
+        a = call.args[0]
+        if isinstance(a, ast.Constant) and isinstance(a.value, str):
+            return ("fmt", a.value, [])
+        if isinstance(a, ast.BinOp) and isinstance(a.op, ast.Mod) and isinstance(a.left, ast.Constant):
+            args = a.right.elts if isinstance(a.right, ast.Tuple) else [a.right]
+            return ("fmt", a.left.value, [ast.unparse(x) for x in args])
+        raise Untranslatable("phase write: %s" % ast.unparse(call)[:80])
+
+    def pcond(e):
+        if isinstance(e, ast.BoolOp):
+            return "(" + (" && " if isinstance(e.op, ast.And) else " || ").join(pcond(x) for x in e.values) + ")"
+        u = ast.unparse(e)
+        table = {"in_tsv": "inTsv", "phase[gaf_line.query_name].haplotype != 'none'": "(!hapIsNone)",
+                 "gaf_line.query_name in phase": "inTsv", "gaf_line.query_name not in phase": "(!inTsv)"}
+        if u in table:
+            return table[u]
+        raise Untranslatable("phase test: %s" % u)
+
+    def pblock(stmts):
+        out = []
+        for st in stmts:
+            u = ast.unparse(st)
+            if isinstance(st, ast.If) and u.startswith("if line_count != 0"):
+                continue        # the newline between records
+            if isinstance(st, ast.AugAssign) and ast.unparse(st.target) in ("line_count", "missing_in_tsv", "phased"):
+                continue
+            if isinstance(st, ast.Assign) and ast.unparse(st.targets[0]) == "in_tsv":
+                pvars["in_tsv"] = pvars.get("in_tsv", []) + [ast.unparse(st.value)]
+                continue
+            if isinstance(st, ast.Expr) and isinstance(st.value, ast.Call) and ast.unparse(st.value.func) == "gaf_out.write":
+                out.append(pwrite(st.value)); continue
+            if isinstance(st, ast.If):
+                if ast.unparse(st.test) == "gaf_line.query_name not in phase" and not st.orelse:
+                    inner_w = pblock(st.body)
+                    if inner_w:
+                        raise Untranslatable("phase: writes under the membership test")
+                    continue
+                out.append(("if", pcond(st.test), pblock(st.body), pblock(st.orelse))); continue
+            if isinstance(st, ast.For) and ast.unparse(st.iter) in ("gaf_line.tags.keys()", "gaf_line.tags") and len(st.body) == 1:
+                w = pwrite(st.body[0].value)
+                if w[2] != ["k", "gaf_line.tags[k]"]:
+                    raise Untranslatable("phase tag loop args")
+                out.append(("tags", w[1])); continue
+            raise Untranslatable("phase loop statement: %s" % u[:60])
+        return out
+    writes = pblock(loop.body)
+    if pvars.get("in_tsv") != ["True", "False"]:
+        raise Untranslatable("phase: in_tsv bookkeeping %s" % pvars)
+    if not (len(writes) == 3 and writes[0][0] == "fmt" and writes[1][0] == "if" and writes[2][0] == "tags"
+            and len(writes[1][2]) == 1 and len(writes[1][3]) == 1 and writes[1][2][0][0] == "fmt" and writes[1][3][0][0] == "fmt"):
+        raise Untranslatable("phase: write plan shape")
+    for a in writes[0][2]:
+        if not a.startswith("gaf_line."):
+            raise Untranslatable("phase prints %s" % a)
+    ph_args = {"phase[gaf_line.query_name].chr_name": "chr", "phase[gaf_line.query_name].phase_set": "pset", "phase[gaf_line.query_name].haplotype": "hap"}
+    for a in writes[1][2][0][2]:
+        if a not in ph_args:
+            raise Untranslatable("phase prints %s" % a)
+    if writes[1][3][0][2]:
+        raise Untranslatable("phase: unphased branch has arguments")
+
+    def slist(xs):
+        return "[" + ", ".join('"%s"' % x for x in xs) + "]"
+
+    def sfmt(f):
+        return '"%s"' % f.replace("\\", "\\\\").replace('"', '\\"').replace("\t", "\\t").replace("\n", "\\n")
+    return ("import Gaftools.Model.Gaf\n"
+            "/-! generated by harness/translate.py from gaftools/gaf.py (parse_gaf_line, Alignment.__str__) and gaftools/cli/phase.py (the writes of\n"
+            "    add_phase_info) — do not edit -/\n"
+            "namespace Gaftools.Gen\nopen Gaftools.Gaf\n\n"
+            "/-- whether the text line / the decoded BGZF line is right-stripped before it is split on tabs -/\n"
+            "def rstripPlain : Bool := %s\ndef rstripBgzf : Bool := %s\n\n"
+            "/-- (attribute of the record, column, how it is read): `cut` = up to the first blank, `guard` = `isdigit()` or the record is\n"
+            "    dropped, `int` = `int()`, `str` = verbatim -/\n"
+            "def columns : List (String × Nat × String) := [%s]\n\n"
+            "/-- group 1 of the tag regular expression, one predicate per character; group 2 is `(.*)` up to the end -/\n"
+            "def tagHead : List (Char → Bool) := [\n  %s]\n\n"
+            "/-- the body of `for k in fields[12:]` once the regular expression has matched -/\n"
+            "def tagBody (st : TagSt) (pattern val : Str) : TagSt :=\n%s\n\n"
+            "/-- Alignment.__str__: the format of the mandatory columns, the attributes printed, when `cg:Z:` is (re)written, the format of a tag -/\n"
+            "def strFormat : String := %s\ndef strArgs : List String := %s\n"
+            "def strSetsCg (cigarNonEmpty hasCg : Bool) : Bool := %s\ndef strTagFormat : String := %s\n\n"
+            "/-- phase.add_phase_info, per record: mandatory columns, the two phase fields (phased / not), the record's own fields -/\n"
+            "def phaseFormat : String := %s\ndef phaseArgs : List String := %s\n"
+            "def phaseIsPhased (inTsv hapIsNone : Bool) : Bool := %s\n"
+            "def phasedFormat : String := %s\ndef phasedArgs : List String := %s\ndef unphasedText : String := %s\ndef phaseTagFormat : String := %s\n"
+            "end Gaftools.Gen\n" % (
+                rs_plain, rs_bgzf,
+                ", ".join('("%s", %d, "%s")' % (attr_of.get(n, n), i, k) for n, i, k in cols),
+                ",\n  ".join(preds), tag_body,
+                sfmt(fmt[0]), slist(a[5:] for a in fmt[1]), cg_rule, sfmt(tag_fmt),
+                sfmt(writes[0][1]), slist(a[9:] for a in writes[0][2]), writes[1][1],
+                sfmt(writes[1][2][0][1]), slist(ph_args[a] for a in writes[1][2][0][2]), sfmt(writes[1][3][0][1]), sfmt(writes[2][1])))
+
+
+GENERATORS["GafRecord"] = gen_gaf_record
+
+
 def regenerate(only=None):
     """returns {name: {"tie": "A"|"B-only", "detail": str, "changed": bool}}"""
     os.makedirs(GEN, exist_ok=True)
@@ -1173,6 +1473,67 @@ def regenerate(only=None):
 
 
 FALLBACK = {
+    "GafRecord": """import Gaftools.Model.Gaf
+/-! FALLBACK (source construct outside the translator's subset): the record text layer as modelled by hand -/
+namespace Gaftools.Gen
+open Gaftools.Gaf
+
+/-- whether the text line / the decoded BGZF line is right-stripped before it is split on tabs -/
+def rstripPlain : Bool := true
+def rstripBgzf : Bool := true
+
+/-- (attribute of the record, column, how it is read): `cut` = up to the first blank, `guard` = `isdigit()` or the record is
+    dropped, `int` = `int()`, `str` = verbatim -/
+def columns : List (String × Nat × String) := [("query_name", 0, "cut"), ("query_length", 1, "guard"), ("query_start", 2, "guard"), ("query_end", 3, "guard"), ("strand", 4, "str"), ("path", 5, "str"), ("path_length", 6, "guard"), ("path_start", 7, "guard"), ("path_end", 8, "guard"), ("residue_matches", 9, "int"), ("alignment_block_length", 10, "int"), ("mapping_quality", 11, "int")]
+
+/-- group 1 of the tag regular expression, one predicate per character; group 2 is `(.*)` up to the end -/
+def tagHead : List (Char → Bool) := [
+  fun c => (c.val ≥ 65 && c.val ≤ 90) || (c.val ≥ 97 && c.val ≤ 122),
+  fun c => (c.val ≥ 65 && c.val ≤ 90) || (c.val ≥ 97 && c.val ≤ 122) || (c.val ≥ 48 && c.val ≤ 57),
+  fun c => c == ':',
+  fun c => c == 'A' || c == 'i' || c == 'f' || c == 'Z' || c == 'H' || c == 'B',
+  fun c => c == ':']
+
+/-- the body of `for k in fields[12:]` once the regular expression has matched -/
+def tagBody (st : TagSt) (pattern val : Str) : TagSt :=
+  if (pattern == "ds:Z:".toList) then
+    st
+  else
+    if (pattern == "cg:Z:".toList) then
+      let st : TagSt := { st with cigar := val }
+      let st : TagSt := { st with tags := dictSet st.tags pattern val }
+      st
+    else
+      if (!dictHas st.tags pattern) then
+        let st : TagSt := { st with tags := dictSet st.tags pattern val }
+        if ((pattern == "tp:A:".toList) && (!(val == "P".toList || val == "p".toList))) then
+          let st : TagSt := { st with isPrimary := false }
+          st
+        else
+          st
+      else
+        if ((pattern == "tp:A:".toList) && (!(val == "P".toList || val == "p".toList))) then
+          let st : TagSt := { st with isPrimary := false }
+          st
+        else
+          st
+
+/-- Alignment.__str__: the format of the mandatory columns, the attributes printed, when `cg:Z:` is (re)written, the format of a tag -/
+def strFormat : String := "%s\\t%s\\t%s\\t%s\\t%s\\t%s\\t%d\\t%d\\t%d\\t%d\\t%d\\t%d"
+def strArgs : List String := ["query_name", "query_length", "query_start", "query_end", "strand", "path", "path_length", "path_start", "path_end", "residue_matches", "alignment_block_length", "mapping_quality"]
+def strSetsCg (cigarNonEmpty hasCg : Bool) : Bool := (cigarNonEmpty || hasCg)
+def strTagFormat : String := "\\t%s%s"
+
+/-- phase.add_phase_info, per record: mandatory columns, the two phase fields (phased / not), the record's own fields -/
+def phaseFormat : String := "%s\\t%s\\t%s\\t%s\\t%s\\t%s\\t%d\\t%d\\t%d\\t%d\\t%d\\t%d"
+def phaseArgs : List String := ["query_name", "query_length", "query_start", "query_end", "strand", "path", "path_length", "path_start", "path_end", "residue_matches", "alignment_block_length", "mapping_quality"]
+def phaseIsPhased (inTsv hapIsNone : Bool) : Bool := (inTsv && (!hapIsNone))
+def phasedFormat : String := "\\tps:Z:%s-%s\\tht:Z:%s"
+def phasedArgs : List String := ["chr", "pset", "hap"]
+def unphasedText : String := "\\tps:Z:none\\tht:Z:none"
+def phaseTagFormat : String := "\\t%s%s"
+end Gaftools.Gen
+""",
     "SortLoop": """/-! FALLBACK (source construct outside the translator's subset): the path loop of process_alignment as modelled by hand -/
 namespace Gaftools.Gen
 inductive SnUpd where
